@@ -370,6 +370,8 @@ def main(tier, seed):
             rep.violation('model:' + m['model'], '%s: implementation coefficients differ from the model Matrix.v' % m['model'], dict(kind='model', case=m, coq_term=t[:4000]))
     if bad or logs:
         rep.violation('corr:uneval', 'correspondence corr.C07 could not be evaluated for %d cases' % bad, dict(kind='correspondence', name='corr.C07', log=logs[:3]), no_input=True)
+    import r9
+    r9.c07_dot_mixed_dtypes(rep, algopy, rng, tier)
     return rep.finish()
 
 
